@@ -74,7 +74,7 @@ inductive Split where
   | fail
   deriving DecidableEq, Repr
 
-/-- The split function installed by `NewCommentReader`. Table lookups use `getD`: the four tables have
+/-- The split function installed by `NewCommentReader`. Table lookups use `[i]?.getD`: the four tables have
 equal length (gated in Props/C17 for the JSON+ tables), so Go's index expressions cannot panic. -/
 def split (T : Tables) (data : Bytes) (atEOF : Bool) : Split :=
   if atEOF && data.isEmpty then .more
@@ -82,9 +82,9 @@ def split (T : Tables) (data : Bytes) (atEOF : Bool) : Split :=
     match firstMatch data T.starts with
     | none => if atEOF then .token data.length data else .more
     | some (pos, i) =>
-      let s := T.starts.getD i []
-      let e := T.ends.getD i []
-      let isC := T.isComment.getD i false
+      let s := T.starts[i]?.getD []
+      let e := T.ends[i]?.getD []
+      let isC := T.isComment[i]?.getD false
       let left := data.drop (pos + s.length)
       match indexEnd left e (!isC) with
       | some extra =>
@@ -92,7 +92,7 @@ def split (T : Tables) (data : Bytes) (atEOF : Bool) : Split :=
         .token adv (if isC then data.take pos else data.take adv)
       | none =>
         if atEOF then
-          if T.required.getD i false then .fail
+          if T.required[i]?.getD false then .fail
           else
             -- extra = len(left) - len(end) (an int, possibly negative); advance = pos + len(start) + extra + len(end)
             let adv := Int.toNat (((pos + s.length : Nat) : Int) + ((left.length : Int) - (e.length : Int)) + (e.length : Int))
